@@ -198,8 +198,8 @@ PROPS = {
     ),
     'C07': dict(
         title='retrieval is total and only narrows', proj='proj_full', oracle='c07',
-        quick=[S_('probes', nc=1, items=('odd_defaults_c07', 'cycle_reload', 'self_forwarding_hint', 'na_defaults')), S_('visitor_corpus', limit=4000), S_('visitor_adv', nc=4), S_('chain', nc=4), S_('examine', nc=4), S_('probes', nc=3, items=('adversarial2', 'other_thread', 'adversarial3')), S_('retrieve'), S_('programs', count=16000, routes=('self', 'param'), ops=('pauto',))],
-        thorough=[S_('probes', nc=1, items=('odd_defaults_c07', 'cycle_reload', 'self_forwarding_hint', 'na_defaults')), S_('visitor_corpus'), S_('visitor_adv', nc=4), S_('chain', nc=4), S_('examine', nc=4), S_('probes', nc=3, items=('adversarial2', 'other_thread', 'adversarial3')), S_('retrieve'), S_('programs', count=160000, routes=('self', 'param'), ops=('pauto',))],
+        quick=[S_('probes', nc=1, items=('odd_defaults_c07', 'cycle_reload', 'self_forwarding_hint', 'na_defaults')), S_('visitor_corpus', limit=4000), S_('visitor_adv', nc=4), S_('chain', nc=4), S_('examine', nc=4), S_('probes', nc=3, items=('graph_totality_0', 'graph_totality_1', 'graph_totality_2')), S_('probes', nc=3, items=('adversarial2', 'other_thread', 'adversarial3')), S_('retrieve'), S_('programs', count=16000, routes=('self', 'param'), ops=('pauto',))],
+        thorough=[S_('probes', nc=1, items=('odd_defaults_c07', 'cycle_reload', 'self_forwarding_hint', 'na_defaults')), S_('visitor_corpus'), S_('visitor_adv', nc=4), S_('chain', nc=4), S_('examine', nc=4), S_('probes', nc=3, items=('graph_totality_0', 'graph_totality_1', 'graph_totality_2')), S_('probes', nc=3, items=('adversarial2', 'other_thread', 'adversarial3')), S_('retrieve'), S_('programs', count=160000, routes=('self', 'param'), ops=('pauto',))],
         runtime_part='what inspect, getsource, ast.parse, getattr and Sphinx raise on real objects (validated over the corpus, not proved)',
         level_text='Totality of the AST walker on arbitrary trees (theorem visitor_total: the deferred-call queue always drains), of the fallback chain of the model, and of discovery over functions that forward to each other (theorems forged_total / depth_bounded over Model/Examine: on every closed call graph, cycles and modifiers-decorated functions included, the guarded examination returns and never nests deeper than the number of functions; the guard events are compared with the real ones by stream examine); the real retrieval is run over every '
                    'star-taking function and a seeded sample (thorough: all) of the ~2*10^4 callables of the importable standard library and installed packages plus adversarial sources, comparing the '
